@@ -34,9 +34,17 @@ Output line: the effects in order, `M<hex>` raw message, `L<hex>` auth line, `X`
                        unix_fds=.. body=<N | value>` or `err <ExceptionName>` (`-` when nothing was delivered), then
                        ` || fds=<final _receivedFDs>`;  attr = N | s<strhex> | i<dec> | b0 | b1 | d<16 hex> | ?other;
                        value in the syntax of Driver/Val.lean.
+
+    H <n> <client_0> <script_0> ... <client_n-1> <script_n-1> <c>:<read> <c>:<read> ...
+                       a HISTORY over n connections of one process (Proto/Receive.lean `Conns.runHist`): every
+                       connection starts as a freshly made protocol (`St.init`, its own scripted authenticator); the
+                       event `<c>:<read>` is one `dataReceived(read)` on connection c.
+                       -> per connection, in index order and separated by ` ;; `, the output of `R` for it (the effects
+                       that happened ON THAT connection, its final state).
 -/
 open Txdbus.Proto
 open Txdbus.Proto.Receive
+open Txdbus.Proto.Receive.Conns
 
 namespace DrvC04
 
@@ -141,8 +149,47 @@ def showState (s : St (List AuthRes)) (effs : List Effect) : String :=
   o ++ " " ++ toString s.nextMsgLen ++ " " ++ b01 s.bigEndian ++ " " ++ b01 s.authenticated
     ++ " " ++ b01 s.firstByte ++ " " ++ b01 s.closed
 
+/-- `client script client script ...` (n pairs), then the events. -/
+def parseConns : Nat → List String → Option (List (Bool × List AuthRes) × List String)
+  | 0, rest => some ([], rest)
+  | n + 1, c :: sc :: rest =>
+    match parseScript sc, parseConns n rest with
+    | some script, some (cs, evs) => some ((c == "1", script) :: cs, evs)
+    | _, _ => none
+  | _, _ => none
+
+def parseEvent (t : String) : Option Event :=
+  match t.splitOn ":" with
+  | [c, h] =>
+    match c.toNat?, parseHex h with
+    | some k, some d => some (k, d)
+    | _, _ => none
+  | _ => none
+
 def handle (line : String) : String :=
   match Driver.words line with
+  | "H" :: n :: rest =>
+    match n.toNat? with
+    | none => "error bad-input"
+    | some n =>
+      match parseConns n rest with
+      | none => "error bad-input"
+      | some (cs, evs) =>
+        match mapMTR parseEvent evs [] with
+        | none => "error bad-input"
+        | some es =>
+          if es.any (fun e => e.1 ≥ n) then "error bad-connection" else
+          let w : Nat → St (List AuthRes) := fun k =>
+            match cs[k]? with
+            | some (cl, script) => St.init cl script
+            | none => St.init true []
+          let r := runHist scripted w es
+          " ;; ".intercalate ((List.range n).map fun k =>
+            let s := r.1 k
+            let o := showEffects (effectsOf k r.2)
+            let o := pushHex (o ++ "| ") s.buffer
+            o ++ " " ++ toString s.nextMsgLen ++ " " ++ b01 s.bigEndian ++ " " ++ b01 s.authenticated
+              ++ " " ++ b01 s.firstByte ++ " " ++ b01 s.closed)
   | "P" :: c :: a :: sc :: fd :: reads =>
     match parseScript sc, parseFds fd, mapMTR parseHex reads [] with
     | some script, some fds, some rs =>
